@@ -56,13 +56,25 @@ def _fit_view(repo):
       if isinstance(s_, ast.Assign) and isinstance(s_.targets[0], ast.Name) \
               and s_.targets[0].id == wn and isinstance(s_.value, ast.BinOp) \
               and isinstance(s_.value.op, ast.Mult):
+        inline_scale = None
         for side in (s_.value.left, s_.value.right):
           if isinstance(side, ast.Name):
             roles[side.id] = 'scale_f'
-          elif isinstance(side, ast.Call) and side.args:
+          elif isinstance(side, ast.Call) and side.args and \
+                  'minimum' in ast.unparse(side.func):
             nm = [x for x in names(side.args[0]) if x not in ('self', 'np')]
             if len(nm) == 1:
               roles[nm[0]] = 'avg_grad_w'
+          else:
+            inline_scale = side
+        if inline_scale is not None:
+          consts_ = set(n.targets[0].id for n in ast.walk(f0.node)
+                        if isinstance(n, ast.Assign) and
+                        isinstance(n.targets[0], ast.Name) and
+                        isinstance(n.value, ast.Constant))
+          for x in names(inline_scale):
+            if x not in ('self', 'np', it):
+              roles[x] = 'delta' if x in consts_ else 'ada_grad_w'
     sf = next((k for k, v in roles.items() if v == 'scale_f'), None)
     av = next((k for k, v in roles.items() if v == 'avg_grad_w'), None)
     consts = set(n.targets[0].id for n in ast.walk(f0.node)
@@ -437,12 +449,22 @@ def rule_update_formulas(repo, rep):
     verdict, why = None, ''
     if isinstance(e, ast.BinOp) and isinstance(e.op, ast.Mult):
       fac = [e.left, e.right]
-      sc = [x for x in fac if ast.unparse(x) == 'scale_f']
       tr = [x for x in fac if isinstance(x, ast.Call) and
             canon(repo.dotted(f.module, x.func) or '') in
             (canon('numpy.minimum'), canon('numpy.fmin'))
             and len(x.args) == 2 and not x.keywords]
-      if len(sc) == 1 and len(tr) == 1:
+      sc = [x for x in fac if x not in tr]
+      # the scale factor: the named temporary (checked separately as
+      # `scale_f`) or the same expression written in place
+      sc_ok = None
+      if len(sc) == 1:
+        if ast.unparse(sc[0]) == 'scale_f' and 'scale_f' in stm:
+          sc_ok = True
+        else:
+          sv = eval_expr(sc[0], scal, {})
+          if isinstance(sv, Rat):
+            sc_ok = sv == Rat.const(-1) * (t + one) / (gam * (dl + ada))
+      if len(sc) == 1 and len(tr) == 1 and sc_ok is not None:
         a0, a1 = tr[0].args
         zero = [a for a in (a0, a1) if isinstance(a, ast.Constant) and
                 a.value == 0 and not isinstance(a.value, bool)]
@@ -450,8 +472,11 @@ def rule_update_formulas(repo, rep):
         if len(zero) == 1 and len(other) == 1:
           v = eval_expr(other[0], scal, {})
           if isinstance(v, Rat):
-            verdict = v == avg + be
-            why = 'trimmed quantity is %r, documented %r' % (v, avg + be)
+            verdict = (v == avg + be) and sc_ok
+            why = 'trimmed quantity is %r, documented %r' % (v, avg + be) \
+                if v != avg + be else 'the scale factor %s is not the ' \
+                'documented -(t + 1) / (gamma (delta + ada))' \
+                % ast.unparse(sc[0])
     if verdict is True:
       rep.derived(R, key, site(f, stm['w']))
     elif verdict is False:
